@@ -2,6 +2,7 @@ import Rivaas.Proto
 import Rivaas.Model.Bind
 import Rivaas.Spec.Bind
 import Rivaas.Model.BindObs
+import Rivaas.Lemmas.BindPath
 /-
 Driver for C04. Case line:
   <id> <G|T> <tag 0..4> <maxDepth> <maxSlice> <maxMap> <csv> <baseAuto> <Ty> <init Val>
@@ -134,12 +135,24 @@ def encObs : Spec.Obs → String
 
 def lookupP (tbl : List (Bytes × PEntry)) : Params := fun s => (assoc s tbl).getD {}
 
+/-- the hypotheses of `bind_meets_spec`, checked on every case: well-typed destination, type inside
+    the grammar, source container well-formed, shipped float facts consistent (`FloatSane`) -/
+def preconditions (c : Case) : Bool :=
+  (match c.ty, c.init with
+   | .struct fs, .struct ivs => wts fs ivs && Spec.inGrammarFs fs
+   | _, _ => false) &&
+  Spec.srcOK c.src &&
+  c.tbl.all (fun e => match e.2.f with
+    | some (_, _, above, inf32) => !inf32 || above
+    | none => true)
+
 def step (line : String) : String :=
   match splitCase line with
   | none => "? bad-line"
   | some (id, inp, obs) =>
     match runP pCase inp, runP pObs obs with
     | some c, some o =>
+      if !preconditions c then s!"{id} bad-case preconditions" else
       let P := lookupP c.tbl
       let m := toObs (bind P c.cfg c.tag c.ty c.init c.src)
       let mi := encObs m == encObs o
